@@ -35,3 +35,6 @@ Ltac panic_close Hs :=
   cbv_struct;
   repeat first [ rewrite Hs | rewrite wset_safe | rewrite npanics_cons; cbn [is_panic] ];
   reflexivity.
+
+(* n steps of the specification *)
+Fixpoint spec_iter u (n : nat) (cpu : CPU) : CPU := match n with O => cpu | S k => spec_iter u k (spec_step u cpu) end.
